@@ -397,6 +397,9 @@ class AutorefMachine(Machine):
                 raise Violation('len() of a live Function is not its number of reachable nodes')
             if f.var is not None and st.m.level_of_var(f.var) != f.level:
                 raise Violation('var/level of a live Function disagree with the manager')
+            # the public accessor of the count reports the count (also for complemented nodes)
+            if f.ref != st.m._ref[abs(f.node)]:
+                raise Violation('Function.ref does not report the reference count of its node')
         if not shutdown:
             return
         # drop everything, in several orders, on copies: shutdown check must pass
